@@ -89,3 +89,26 @@ package document
 //@ ensures string(config.Template) != "" ==> t.Properties != nil && t.Properties.TableStyle != nil && t.Properties.TableStyle.Val == string(config.Template)
 //@ ensures string(config.Template) == "" && config.StyleID != "" ==> t.Properties != nil && t.Properties.TableStyle != nil && t.Properties.TableStyle.Val == config.StyleID
 //@ ensures string(config.Template) == "" && config.StyleID == "" ==> t.Properties != nil && t.Properties.TableStyle == old(ite(t.Properties == nil, nil, t.Properties.TableStyle))
+
+// collectHeadingsAndAddBookmarks (AutoGenerateTOC): every collected entry has a level in 1..9 - the precondition
+// under which createWordFieldTOC / createTOCEntryWithFields write a defined TOC entry style. (What the function does
+// to the body - a bookmark pair around every collected heading - is not specified here.)
+//@ func (*Document).collectHeadingsAndAddBookmarks
+//@ props C13
+//@ requires d != nil && d.Body != nil && elemsOK(d.Body.Elements)
+//@ ensures forall k int :: {result[k]} 0 <= k && k < len(result) ==> 1 <= result[k].Level && result[k].Level <= 9
+//@ ensures len(d.Body.Elements) >= old(len(d.Body.Elements))
+//@ loop 1
+//@   invariant len(newElements) >= #i
+//@   invariant 0 <= #i && #i <= old(len(d.Body.Elements)) && d != nil && d.Body != nil && d.Body.Elements == old(d.Body.Elements)
+//@   invariant forall j int :: {old(d.Body.Elements[j])} 0 <= j && j < old(len(d.Body.Elements)) ==> d.Body.Elements[j] == old(d.Body.Elements[j])
+//@   invariant cap(entries) == 0 || (arr(entries) >= old(allocBound()) && arr(entries) < allocBound())
+//@   invariant cap(newElements) == 0 || (arr(newElements) >= old(allocBound()) && arr(newElements) < allocBound())
+//@   invariant forall k int :: {entries[k]} 0 <= k && k < len(entries) ==> 1 <= entries[k].Level && entries[k].Level <= 9
+//@   decreases old(len(d.Body.Elements)) - #i
+
+// AutoGenerateTOC hands createWordFieldTOC entries with levels in 1..9 (pre@createWordFieldTOC is discharged here),
+// so every style id it writes is a predefined one.
+//@ func (*Document).AutoGenerateTOC
+//@ props C13
+//@ requires d != nil && d.Body != nil && elemsOK(d.Body.Elements)
